@@ -106,19 +106,19 @@ func stageLines(r *Rand, n int) [][]byte {
 }
 
 func c05StageCases(r *Rand, tier string, modes []string) []string {
-	n := 3
+	n := len(stageExprs) // quick: every expression once, short
 	if tier == "thorough" {
-		n = 14
+		n = 2*len(stageExprs) + 2
 	}
 	if tier == "search" {
-		n = 24
+		n = 2 * len(stageExprs)
 	}
 	var out []string
 	for i := 0; i < n; i++ {
 		mode := Pick(r, modes)
-		expr := Pick(r, stageExprs)
-		if i < len(stageExprs) && tier != "quick" {
-			expr = stageExprs[i]
+		expr := stageExprs[i%len(stageExprs)]
+		if i >= len(stageExprs) {
+			expr = Pick(r, stageExprs)
 		}
 		workers := Pick(r, []int{8, 12, 16, 24})
 		nl := Pick(r, []int{7, 40})
@@ -127,7 +127,8 @@ func c05StageCases(r *Rand, tier string, modes []string) []string {
 			rounds = Pick(r, []int{100, 600})
 		}
 		if tier == "quick" {
-			rounds /= 2
+			nl = 7
+			rounds = Pick(r, []int{10, 40})
 		}
 		batch := Pick(r, []int{1, 1, 2, 5})
 		out = append(out, fmt.Sprintf("stages %s %d %d %d %s %s", mode, workers, rounds, batch, HexS(expr), HexList(stageLines(r, nl))))
